@@ -51,6 +51,10 @@ def expand_names(ids, rule, shape):
             return '#[ts(rename_all = "%s")] enum E { %s }' % (rule, " ".join("r#%s," % i for i in group))
         if shape == "tagged_struct_variant":     # the tag value written into a struct variant of an internally tagged enum
             return '#[ts(tag = "t", rename_all = "%s")] enum E { %s }' % (rule, " ".join("%s {}," % i for i in group))
+        if shape == "renamed_field":             # an explicit rename is used verbatim, whatever the container's convention
+            return '#[ts(rename_all = "%s")] struct S { %s }' % (rule, " ".join('#[ts(rename = "%s")] f%d: u8,' % (i, k) for k, i in enumerate(group)))
+        if shape == "renamed_variant":
+            return '#[ts(rename_all = "%s")] enum E { %s }' % (rule, " ".join('#[ts(rename = "%s")] V%d,' % (i, k) for k, i in enumerate(group)))
         if shape == "rename_all_fields":
             return '#[ts(rename_all_fields = "%s")] enum E { V { %s } }' % (rule, " ".join("%s: u8," % i for i in group))
         if shape == "variant_rename_all":
@@ -59,7 +63,7 @@ def expand_names(ids, rule, shape):
 
     def names_of(tokens, n):
         names = (macrodrv.tag_values(tokens) if shape == "tagged_struct_variant" else
-                 macrodrv.unit_variant_names(tokens) if shape in ("variant", "raw_variant") else macrodrv.field_names(tokens))
+                 macrodrv.unit_variant_names(tokens) if shape in ("variant", "raw_variant", "renamed_variant") else macrodrv.field_names(tokens))
         if len(names) == 2 * n and names[:n] == names[n:]:
             names = names[:n]        # inline() and inline_flattened() carry the same list
         if len(names) != n:
@@ -164,8 +168,18 @@ def run_core(tier, prop):
         for first in ("field", "variant"):
             for (pos, i), n in expand_names_seq(calm, rule, first).items():
                 seq[(pos, rule, i, first)] = n
+    # explicit renames: the expected name is the rename itself (serde uses it verbatim)
+    verb = {}
+    plain = [i for i in short if '"' not in i and "\\" not in i]
+    for rule in RULES:
+        for shape, pos in (("renamed_field", "field"), ("renamed_variant", "variant")):
+            for i, n in expand_names(plain, rule, shape).items():
+                verb[(shape, rule, i, pos)] = n
     # ADJUDICATE
     recs, meta = [], []
+    for (shape, rule, i, pos), n in verb.items():
+        recs.append({"id": by_id[i]["id"], "pos": pos, "rule": rule, "ts": n, "serde": to_toks(i), "verbatim": True})
+        meta.append((pos, rule, i, shape))
     for (pos, rule, i, first), n in seq.items():
         recs.append({"id": by_id[i]["id"], "pos": pos, "rule": rule, "ts": n, "serde": serde[(pos, rule, i)]})
         meta.append((pos, rule, i, "%s carrier, %ss derived first in the same macro process" % (pos, first)))
@@ -178,6 +192,8 @@ def run_core(tier, prop):
     for (shape, rule, i), n in extra.items():
         recs.append({"id": by_id[i]["id"], "pos": "field", "rule": rule, "ts": n, "serde": serde[("field", rule, i)]})
         meta.append(("field", rule, i, shape))
+    for r_ in recs:
+        r_.setdefault("verbatim", False)
     tpath = os.path.join(vlib.TMP, "infl-trace.ndjson")
     vlib.write_ndjson(tpath, recs)
     a = vlib.run_tlc("Trace_Inflection", "Trace_Inflection.cfg", workers=12, env={"VERIF_TRACE": tpath}, timeout=1800,
